@@ -177,9 +177,44 @@ def run(run):
         if not (d.startswith("ok ") and s == f"ok {cid}"):
             run.violation("encode(decode(id)) != id for a canonical id", reqs[i], f"{d} / {s}")
         k += 1
+    # every single-bit variant of every cell of resolutions -1, 0, 1 (and of a sample of deeper cells) through every function that
+    # takes ids and returns ids: whatever is returned must be canonical, and the model decides which variants are spellings of a cell
+    # (a stray bit below the marker, bit 57 of a quintant id ...) and which are not cells at all
+    flips = []
+    low = [0] + [spec.encode(0, f, ()) for f in range(12)] + [spec.encode(1, T, ()) for T in range(60)]
+    low += [gen.rand_cell(rng, lo=2) for _ in range(run.n(40, 2000))]
+    for c in low:
+        for b in range(64):
+            flips.append(c ^ (1 << b))
+    freqs = []
+    for x in flips:
+        m = rng.random()
+        freqs.append(f"compact {x}")
+        if m < 0.35:
+            freqs.append(f"cell_to_parent {x} none")
+            freqs.append(f"cell_to_children {x} none")
+        elif m < 0.5:
+            y = rng.choice(flips)
+            freqs.append(f"compact {x},{y}")
+            freqs.append(f"uncompact {x} {rng.randint(0, 4)}")
+    fimpl, fmodel = core.both(run, freqs, "single-bit spellings")
+    for q, a in zip(freqs, fimpl):
+        run.evaluations += 1
+        if a.startswith("ok ") and a[3:] != "-":
+            try:
+                outs = [int(v) for v in a[3:].split(",")]
+            except ValueError:
+                continue
+            bad = [v for v in outs if spec.decode(v) is None]
+            if bad:
+                run.violation(f"an id returned by {q.split()[0]} is not in canonical form: {bad[0]:#x}", q, a[:200])
+            elif q.startswith("compact ") and len(set(outs)) != len(outs):
+                run.violation("compact returned the same id twice", q, a[:200])
+            else:
+                run.nontrivial.add(q)
     # bulk: compact on more than 2^20 ids with non-canonical spellings among them: every returned id canonical, one id per cell
     bulk.check_compact(run, bulk.compact_requests(run)[-2:], "compact (bulk, non-canonical spellings)")
-    run.rule = ("compact on >2^20 ids incl. duplicates and non-canonical spellings (digest vs model and vs the expected canonical cover); exhaustive over all cells of resolution <= %d, plus random/boundary/bit-pattern cells up to r=29, malformed ids, "
+    run.rule = ("every single-bit variant of every cell of resolutions -1..1 (and of sampled deeper cells) through compact / cell_to_parent / cell_to_children / uncompact (returned ids canonical, model decides what is a spelling); compact on >2^20 ids incl. duplicates and non-canonical spellings (digest vs model and vs the expected canonical cover); exhaustive over all cells of resolution <= %d, plus random/boundary/bit-pattern cells up to r=29, malformed ids, "
                 "invalid descriptions, hex boundaries/single bits/random values and random short strings; "
                 "non-trivial = distinct ids of resolution >= 1 produced by the implementation's serialize" % rmax)
     run.samples = [{"request": reqs[i], "impl": impl[i], "model": model[i]} for i in rng.sample(range(len(reqs)), 8)]
